@@ -34,6 +34,11 @@ class G:
     def sp(self):
         return self.pick([' ', ' ', '  ', '\t', ' \t '])
 
+    def gl(self):
+        """blanks where the grammar does not need any: now and then the two neighbours are glued together
+        (`!Assets:Foo`, `{1#2 USD}`, `10USD`, `@1 USD`, `USD{...}`) - legal, and where edits next to a child go wrong"""
+        return '' if self.maybe(0.12) else self.sp()
+
     def date(self):
         return self.pick(['2000-01-01', '2012-12-31', '1999/1/2', '0987-06-05', '2020-02-29'])
 
@@ -41,7 +46,7 @@ class G:
         return self.pick(NUMS) if self.maybe(0.6) else self.pick(EXPRS)
 
     def amount(self):
-        return self.num() + self.sp() + self.pick(CURRENCIES)
+        return self.num() + self.gl() + self.pick(CURRENCIES)
 
     def inline(self):
         if self.comments and self.maybe(0.25):
@@ -77,7 +82,7 @@ class G:
         comps = []
         k = self.r.randrange(9)
         if k == 8:
-            comps.append(self.num() + ' # ' + self.pick(CURRENCIES))
+            comps.append(self.num() + self.pick([' # ', ' # ', '#', ' #', '# ']) + self.pick(CURRENCIES))
         elif k == 0:
             pass
         elif k == 1:
@@ -87,9 +92,9 @@ class G:
         elif k == 3:
             comps.append(self.amount())
         elif k == 4:
-            comps.append(self.num() + ' # ' + self.num() + ' ' + self.pick(CURRENCIES))
+            comps.append(self.num() + self.pick([' # ', ' # ', '#', ' #', '# ']) + self.num() + ' ' + self.pick(CURRENCIES))
         elif k == 5:
-            comps.append('# ' + self.num() + ' ' + self.pick(CURRENCIES))
+            comps.append(self.pick(['# ', '# ', '#']) + self.num() + ' ' + self.pick(CURRENCIES))
         else:
             comps.append(self.amount())
         if self.maybe(0.3):
@@ -106,7 +111,7 @@ class G:
     def posting(self, ind: str):
         out = ind
         if self.maybe(0.2):
-            out += self.pick(PFLAGS) + self.sp()
+            out += self.pick(PFLAGS) + self.gl()
         out += self.pick(ACCOUNTS)
         k = self.r.randrange(5)
         if k == 0:
@@ -118,10 +123,10 @@ class G:
         else:
             out += self.sp() + self.amount()
             if self.maybe(0.35):
-                out += self.sp() + self.cost()
+                out += self.gl() + self.cost()
             if self.maybe(0.3):
-                out += self.sp() + self.pick(['@', '@@']) + self.pick(['', self.sp() + self.amount(), self.sp() + self.num(),
-                                                                       self.sp() + self.pick(CURRENCIES)])
+                out += self.gl() + self.pick(['@', '@@']) + self.pick(['', self.gl() + self.amount(), self.gl() + self.num(),
+                                                                       self.gl() + self.pick(CURRENCIES)])
         out += self.eol()
         out += self.meta(ind + self.indent, 0.25)
         return out
